@@ -87,7 +87,11 @@ def handleInterval (op : String) (inp : Json) (impl : Option Json) : R (Option J
     pure (some (obj [("out", tableJ out)]))
   | "total" =>
     let t ← getTable (← fld inp "t")
-    pure (some (obj [("out", intJ (totalRangeSize t))]))
+    let out := totalRangeSize t
+    let spec ← (match impl with
+      | none => pure Json.null
+      | some j => do pure (clausesJ (totalSpecB t (← getInt j))))
+    pure (some (obj [("out", intJ out), ("spec", spec), ("specm", clausesJ (totalSpecB t out))]))
   | "in_range" =>
     let t ← getTable (← fld inp "t")
     let chrom ← getOptStr (← fld inp "chrom")
